@@ -1,16 +1,77 @@
-//! Suite C12 (stub — replaced when the property's harness is built).
+//! Suite C12: uplink header bits and ADR back-off follow the session history.
 #![allow(dead_code, unused_imports)]
+use crate::mac::*;
+use crate::macgen::*;
+use crate::macsuites::*;
 use crate::util::*;
 
-pub fn eval(_op: &str) -> String {
-    "bad-op".into()
+pub fn eval(op: &str) -> String {
+    let outs = run_history(op);
+    format!("{} ## oracle={}", outs.join(" ; "), oracle_c12(op, &outs))
 }
 
 pub fn expand(_op: &str) -> Vec<String> {
     vec![]
 }
 
-pub fn run(_tier: &str, _seed: u64, dir: &str) {
-    let sink = Sink::new(dir);
-    sink.finish(dir, "stub", false, serde_json::json!({}));
+pub fn run(tier: &str, seed: u64, dir: &str) {
+    let mut rng = Rng::new(seed);
+    let mut sink = Sink::new(dir);
+    let thorough = tier == "thorough";
+    for region in REGIONS {
+        let n = if thorough { 500 } else { 30 };
+        for i in 0..n {
+            let drs = uplink_drs(region);
+            let mut h = Hist::new("C12", region, 20, 0, rng.next() & 0xffffff, &[], None);
+            h.go_live();
+            if i % 5 == 0 {
+                h.sess(rng.below(1000) as u32, None, *rng.pick(&[0u32, 60, 63, 64, 95, 96, 127, 200]), false, &[], rng.chance(1, 2));
+            } else {
+                h.abp();
+            }
+            let e = format!("dr {}", rng.pick(&drs));
+            h.ev(&e);
+            let uplinks = if i % 3 == 0 { 260 + rng.below(140) } else { 20 + rng.below(120) };
+            for _ in 0..uplinks {
+                if h.dead {
+                    break;
+                }
+                if rng.chance(1, 40) {
+                    let e = format!("adr {}", rng.below(2));
+                    h.ev(&e);
+                }
+                if rng.chance(1, 60) {
+                    let e = format!("dr {}", rng.pick(&drs));
+                    h.ev(&e);
+                }
+                h.send(1 + rng.below(5) as u8, rng.chance(1, 4), &[7]);
+                match rng.below(30) {
+                    0 => {
+                        h.rx_auth("rx1", 0, 1, rng.chance(1, 2), &[], Some(2), &[1]);
+                    }
+                    1 => {
+                        let (b, hint, _) = rejected_frame(&mut rng, &h);
+                        h.rx_bytes("rx2", 0, &b, hint);
+                        if !h.last_out().starts_with("resp=DownlinkReceived") {
+                            h.timeout();
+                        } else if let Some(f) = hint {
+                            h.last_down = Some(f);
+                        }
+                    }
+                    2 => {
+                        // several confirmed downlinks before the next uplink: one ACK
+                        h.rx_auth("rx1", 0, 1, true, &[], None, &[]);
+                        h.rx_auth("rxc", 0, 1, true, &[], Some(3), &[2]);
+                    }
+                    _ => {
+                        h.timeout();
+                    }
+                }
+            }
+            h.snap();
+            let op = h.done();
+            sink.case(&op, &eval(&op), if uplinks > 200 { "long-history" } else { "history" }, true);
+        }
+    }
+    sink.finish(dir, "per region: histories of 20..400 uplinks with rare accepted (confirmed/unconfirmed) and rejected downlinks, ADR toggles and application data-rate overrides, sessions restored with ADR counters at 0/60/63/64/95/96/127/200; every uplink header and data rate is compared with a 5-field reference automaton (ack owed, ADR on, uplinks since last accepted downlink, data rate, address). Non-trivial = every case.", false, serde_json::json!({}));
 }
